@@ -23,6 +23,8 @@ TRelsOnly  == [m |-> R(FALSE, "tt")]
 TCase == [s |-> A("string", FALSE), S |-> A("string", FALSE)] @@ ("j,omitempty" :> A("string", FALSE))
 \* two to-many relationships (and nothing else)
 TManys == [m |-> R(FALSE, "tt"), k |-> R(FALSE, "tt")]
+\* relationships that name no target type (SoftResource.AddRel takes them; the library's own tests declare them)
+TLoose == [o |-> R(TRUE, ""), m |-> R(FALSE, "")]
 NoDef == A("", FALSE)
 Op(o, h, impl, f, v, id, def, unt) ==
     [op |-> o, h |-> h, impl |-> impl, tname |-> "rt", fields |-> IF o = "New" THEN TFields ELSE <<>>,
@@ -35,6 +37,7 @@ Alphabet ==
   \cup { NewOf(i, "rta", TAttrsOnly) : i \in {"soft", "wrap"} } \cup { NewOf(i, "rtr", TRelsOnly) : i \in {"soft", "wrap"} }
   \cup { NewOf(i, "rtc", TCase) : i \in {"soft", "wrap"} }
   \cup { NewOf(i, "rtm", TManys) : i \in {"soft", "wrap"} }
+  \cup { NewOf("soft", "rtl", TLoose) }
   \cup { Op("ZeroNew", 0, "soft", "", V(0), "", NoDef, FALSE) }
   \cup { Op("Set", h, "", p[1], p[2], "", NoDef, FALSE) : h \in H,
             p \in { <<"s", V(1)>>, <<"s", V(2)>>, <<"n", V(0)>>, <<"n", V(1)>>, <<"n", V(2)>>, <<"n", NilV>>, <<"b", V(1)>>, <<"b", V(2)>>,
@@ -50,6 +53,9 @@ Alphabet ==
   \cup { Op("AddField", h, "", p[1], V(0), "", p[2], FALSE) : h \in H,
             p \in { <<"z", A("string", FALSE)>>, <<"y", R(FALSE, "tt")>>, <<"s", A("int", FALSE)>> } }
   \cup { Op("RemoveField", h, "", f, V(0), "", NoDef, FALSE) : h \in H, f \in {"s", "m", "zz"} }
+  \* (as many fields before and after: an attribute for an attribute, a relationship for a relationship, one for the other)
+  \cup { Op("TypeRename", h, "", p[1], V(0), p[2], p[3], FALSE) : h \in H,
+            p \in { <<"s", "z", A("string", FALSE)>>, <<"n", "z", A("int", FALSE)>>, <<"m", "y", R(FALSE, "tt")>>, <<"s", "y", R(TRUE, "tt")>> } }
 
 RECURSIVE Run(_, _)
 Run(objs, ops) == IF ops = <<>> THEN objs
